@@ -1,6 +1,7 @@
 import Gaftools.Props.C02
 import Gaftools.Props.TieA
 import Gaftools.Props.Glue
+import Gaftools.Props.Reflect
 #print axioms Gaftools.TieA.mergeNodes_gen_eq_model
 #print axioms Gaftools.C02.roundtrip_USU
 #print axioms Gaftools.C02.roundtrip_SUS
@@ -10,3 +11,7 @@ import Gaftools.Props.Glue
 #print axioms Gaftools.Glue.parse_render_unstable
 #print axioms Gaftools.Glue.parse_render_ivs
 #print axioms Gaftools.Glue.parse_render_bare
+#print axioms Gaftools.Reflect.segsOf_eq
+#print axioms Gaftools.Reflect.validRGFAB_sound
+#print axioms Gaftools.Reflect.validRGFAB_tagged
+#print axioms Gaftools.Reflect.validRGFAB_complete
